@@ -22,9 +22,9 @@ ASSUMPTIONS = ['k is transparent up to one multiply/divide rounding (rel 4e-16 p
                '(mixing numpy and python scalars in one trajectory is outside the judged class)',
                'file names avoid the ".p?" suffix the readers strip']
 CLASSES = {
-    'ops': {'quick': 8000, 'thorough': 180000},
-    'logfile': {'quick': 1400, 'thorough': 36000},
-    'parfiles': {'quick': 1200, 'thorough': 30000},
+    'ops': {'quick': 24000, 'thorough': 180000},
+    'logfile': {'quick': 4200, 'thorough': 36000},
+    'parfiles': {'quick': 3600, 'thorough': 30000},
 }
 MIN_EVENTS = {'quick': {'assert:ops': 20000, 'assert:logfile': 1500, 'assert:parfiles': 1000}}
 KS = [None, 1, -1, 2, 0.5, 2.5]
